@@ -7,6 +7,8 @@ R-C13-1  each role's vector is built per element (one draw per k), either nonce(
 R-C13-2  the two final masking scalars have RNG draw sites only, unconditional on the seed, and are distinct
 R-C13-3  random_not_zero returns only through the exit of a loop whose condition is value == ZERO
 R-C13-4  no role value is a constant or a public value (every alternative contains a draw)
+R-C13-5  every generator a draw is taken from is built with the caller's RNG mixed in (else the drawn nonces, the two final masks
+         included, do not vary with the caller's randomness); shared with R-C14-1
 """
 from bpsa.facts import callee_decl, callee_name
 from bpsa.normal import canon
@@ -167,6 +169,9 @@ def run(ctx):
     # ---- R-C13-3
     rep.check(bool(samplers) and all(v['exit_nonzero'] and v['draws'] for v in samplers.values()), 'R-C13-3', 'R-C13-3/rejection-sampling',
               'random_not_zero re-draws while the value equals zero (%s)' % sorted(samplers), 'rejection sampling defective or missing: %s' % samplers, ctx.where(p))
+    # ---- R-C13-5 (shared with R-C14-1): the generator every draw is taken from was built with the caller's RNG mixed in
+    from . import C14
+    C14.finalize_uses_external(ctx, 'R-C13-5')
     # ---- R-C13-4
     for r in roles:
         consts = [a for a in r.alts if a['kind'] == 'other']
